@@ -4,7 +4,7 @@ from fractions import Fraction
 import numpy as np
 from harness import votelib as V, gslib
 from harness.c11 import consistent_vals
-from harness.common import pmap, lean_query, guard, fr, to_np, safe_judge
+from harness.common import pmap, lean_query, guard, fr, to_np, safe_judge, persist, persist_rule
 from harness.c01 import chunks
 
 LEVEL = "proof"
@@ -51,13 +51,13 @@ def impl_vote(case):
         try:
             P, m, vals, k, lam, seed = it["P"], it["m"], it["vals"], it["k"], it["lam"], it["seed"]
             prof = V.profile_obj(P)
-            vp = ValuationProfile.of(to_np(vals))
+            vp = persist("vals", to_np(vals), ValuationProfile.of)
             res = {}
             for name, (mk, kind) in voting_rules(m, k, lam, vp).items():
                 r = {}
                 for zero in (True, False):
                     for tb in ("accept", "first", "random"):
-                        rule = mk(tb, zero)
+                        rule = persist_rule(("c13", name, k if name in ("kapproval", "karv") else lam if name == "prv" else 0, tb, zero), lambda: mk(tb, zero))
                         log = []
                         orig, rec = _wrap_choice(log)
                         np.random.seed(seed)
@@ -74,11 +74,11 @@ def impl_vote(case):
                         r[f"{tb}:{int(zero)}"] = {"score": [fr(Fraction(float(x))) for x in sc], "out": [int(x) for x in np.atleast_1d(w)],
                                                   "scalar": bool(np.ndim(w) == 0), "choice": log}
                     if hasattr(rule, "swf") and kind == "profile":
-                        sw = mk("accept", zero).swf(prof)
+                        sw = persist_rule(("c13", name, k if name in ("kapproval", "karv") else lam if name == "prv" else 0, "accept", zero), lambda: mk("accept", zero)).swf(prof)
                         r[f"swf:{int(zero)}"] = [[int(a), fr(Fraction(float(s)))] for a, s in zip(sw[0], sw[1])]
                 res[name] = r
             # STV in both conventions
-            cp = CompleteProfile.of(np.array(P, dtype=np.int64))
+            cp = persist("stvP", np.array(P, dtype=np.int64), CompleteProfile.of)
             res["stv"] = {}
             for zero in (True, False):
                 np.random.seed(seed)
@@ -91,7 +91,7 @@ def impl_vote(case):
                              ("veto", lambda z: rs.RandomizedVeto(zero_indexed=z)), ("harmonic", lambda z: rs.RandomizedHarmonic(zero_indexed=z)),
                              ("kapproval", lambda z: rs.RandomizedKApproval(k=k, zero_indexed=z))]:
                 for zero in (True, False):
-                    rule = mk(zero)
+                    rule = persist_rule(("rand", name, k if name == "kapproval" else 0, zero), lambda: mk(zero))
                     log = []
                     orig, rec = _wrap_choice(log)
                     np.random.seed(seed)
@@ -140,26 +140,34 @@ def impl_other(case):
             for ro in (True, False):
                 res[f"gs{int(ro)}:{z}"] = _call(lambda: gslib.call_gs(inst, ro, zero))
             n = it["n"]
-            P1 = np.array(it["P1"], dtype=np.int64); P2 = np.array(it["P2"], dtype=np.int64)
-            V1 = np.array(it["V1"], dtype=np.int64); V2 = np.array(it["V2"], dtype=np.int64)
+            P1 = persist("P1", np.array(it["P1"], dtype=np.int64)); P2 = persist("P2", np.array(it["P2"], dtype=np.int64))
+            V1 = persist("V1", np.array(it["V1"], dtype=np.int64)); V2 = persist("V2", np.array(it["V2"], dtype=np.int64))
             res[f"irving:{z}"] = _call(lambda: [[int(a), int(b)] for a, b in Irving(zero_indexed=zero).scf(
                 IntegerValuationProfile.of(V1), IntegerValuationProfile.of(V2), StrictCompleteProfile.of(P1), StrictCompleteProfile.of(P2))])
             W = to_np(it["W"])
-            res[f"mwm:{z}"] = _call(lambda: [int(x) for x in MaximumWeightMatching(zero_indexed=zero).scf(ValuationProfile.of(W))])
+            res[f"mwm:{z}"] = _call(lambda: [int(x) for x in persist_rule(("mwm", zero), lambda: MaximumWeightMatching(zero_indexed=zero)).scf(persist("W", W, ValuationProfile.of))])
             Pf = to_np(it["Pinc"])
 
             def rsd():
                 np.random.seed(seed)
-                a = RandomSerialDictatorship(zero_indexed=zero).scf(StrictProfile.of(Pf))
+                a = persist_rule(("rsd", zero), lambda: RandomSerialDictatorship(zero_indexed=zero)).scf(persist("Pinc", Pf, StrictProfile.of))
                 return [None if np.isnan(x) else int(x) for x in a]
             res[f"rsd:{z}"] = _call(rsd)
 
             def eat(ps):
                 np.random.seed(seed)
-                prof = StrictCompleteProfile.of(P1)
+                prof = persist("P1e", P1, StrictCompleteProfile.of)
                 if ps:
-                    return [int(x) for x in ProbabilisticSerial(zero_indexed=zero).scf(prof)]
-                return [int(x) for x in SimultaneousEating(zero_indexed=zero).scf(prof, np.array(it["speeds"], dtype=float))]
+                    return [int(x) for x in persist_rule(("ps", zero), lambda: ProbabilisticSerial(zero_indexed=zero)).scf(prof)]
+                return [int(x) for x in persist_rule(("se", zero), lambda: SimultaneousEating(zero_indexed=zero)).scf(prof, np.array(it["speeds"], dtype=float))]
+            def eat_inc():
+                # incomplete square profile (the known finding of C07 lives here; the index convention must still only shift)
+                np.random.seed(seed)
+                prof = persist("PincSq", to_np(it["PincSq"]), StrictProfile.of)
+                a = persist_rule(("se", zero), lambda: SimultaneousEating(zero_indexed=zero)).scf(prof, np.array(it["speeds"], dtype=float))
+                return [None if np.isnan(x) else int(x) for x in a]
+            if it.get("PincSq") is not None:
+                res[f"seinc:{z}"] = _call(eat_inc)
             res[f"ps:{z}"] = _call(lambda: eat(True))
             res[f"se:{z}"] = _call(lambda: eat(False))
             vals = to_np(it["vals"])
@@ -334,7 +342,10 @@ def gen_other(R):
     Pinc = gslib.rand_profile(R.rng, n, R.rng.randint(1, n + 1), R.rng.choice([0, .3]))
     if all(v is None for row in Pinc for v in row):
         Pinc[0][0] = 1
-    return {"n": n, "P1": P1, "P2": P2, "V1": intvals(P1), "V2": intvals(P2), "W": W, "hr": hr, "Pinc": Pinc,
+    PincSq = gslib.rand_profile(R.rng, n, n, 0.3)
+    if all(v is None for row in PincSq for v in row):
+        PincSq[0][0] = 1
+    return {"n": n, "P1": P1, "P2": P2, "V1": intvals(P1), "V2": intvals(P2), "W": W, "hr": hr, "Pinc": Pinc, "PincSq": PincSq,
             "speeds": [R.rng.choice([1, 2, 0.5]) for _ in range(n)], "vals": consistent_vals(R.rng, P1, n),
             "lam": R.rng.randint(1, n), "lam2": R.rng.randint(1, n), "seed": R.rng.randrange(10 ** 6),
             "queries": [[R.rng.randrange(n), R.rng.randrange(n)] for _ in range(4)]}
